@@ -2,7 +2,11 @@
 
 package hls
 
-import "github.com/q191201771/naza/pkg/filesystemlayer"
+import (
+	"time"
+
+	"github.com/q191201771/naza/pkg/filesystemlayer"
+)
 
 // VerifSetFsl installs a file-system layer (an instrumented in-memory one for the checks).
 func VerifSetFsl(f filesystemlayer.IFileSystemLayer) { fslCtx = f }
@@ -21,3 +25,15 @@ func verifGo(f func()) {
 
 // VerifSweep runs the body of the sweep once.
 func VerifSweep(s *ServerHandler) { s.clearExpireSession() }
+
+// VerifNowFn, when set, is the clock of HLS sub-sessions (vgen rewrites time.Now in server_sub_session.go
+// to verifNow). It is process-wide: an environment sets it around each request / sweep it makes under a
+// lock of its own.
+var VerifNowFn func() time.Time
+
+func verifNow() time.Time {
+	if f := VerifNowFn; f != nil {
+		return f()
+	}
+	return time.Now()
+}
